@@ -102,6 +102,7 @@ class C12:
     prop = PROP
     level = "exploration"
     line_modules = seams.TARGET_MODULES
+    policy_weights = (0.45, 0.25, 0.2, 0.1)  # random walk, PCT, single pre-emption, race-directed (DESIGN 3.3)
 
     def opcode_modules(self, case):
         return ("rich.progress",) if case["cfg"].get("opcode", True) else ()
